@@ -154,6 +154,10 @@ theorem write_split_partial (d : Decoder) (chunks : List Bytes) (h : d.saveBuf =
   rw [← runWrites_real_ideal d chunks h1, ← runWrites_real_ideal d [chunks.flatten] h2]
   exact write_split_ideal d chunks h
 
+/-- The regenerated constant of `Decoder.Write` the finding is about (a change breaks this obligation
+and the witness below is re-evaluated against the new bound). -/
+theorem varIntOverhead_eq : Gen.HpackStatic.varIntOverhead = 8 ∧ paranoiaBound 127 = 270 := by decide
+
 /-! ### The witness -/
 
 def witnessVarint : Bytes := [127, 128, 128, 128, 128, 128, 128, 128, 128, 0]
